@@ -67,13 +67,18 @@ impl TypeCastExpression {
     ///
     /// Some expressions require parentheses to ensure correct operator precedence when type cast.
     pub fn needs_parentheses(expression: &Expression) -> bool {
-        matches!(
-            expression,
+        match expression {
             Expression::Binary(_)
-                | Expression::Unary(_)
-                | Expression::TypeCast(_)
-                | Expression::If(_)
-        )
+            | Expression::Unary(_)
+            | Expression::TypeCast(_)
+            | Expression::If(_) => true,
+            // a number holding a negative value is written with a minus sign
+            Expression::Number(number) => {
+                let value = number.compute_value();
+                value.is_finite() && value.is_sign_negative()
+            }
+            _ => false,
+        }
     }
 
     /// Returns a mutable reference to the last token for this type cast expression,
